@@ -8,6 +8,107 @@ claim("C01", "lockset + value-provenance (SSA access paths) + channel typestate"
       "of their own call; (backend ID, request ID) travel in the right parameter roles from the pending list to the upload "
       "headers. Not decided: interleavings inside net/http, ID collision probability, payload bytes.")
 
-for _pid in ["C02", "C03", "C04", "C05", "C06", "C07", "C08", "C09", "C10", "C11", "C12", "C13", "C14", "C15", "C16",
-             "C17", "C18", "C19", "C20"]:
+claim("C02", "who-may-write table over resolved mutation sites + sibling tables + construction-site checks",
+      "Byte identity through net/http is not decided. Decides that nothing in this repository's code on the request path alters "
+      "the request beyond a frozen, reasoned table (every Header Set/Add/Del/map store, AddCookie and field store on an "
+      "*http.Request in the proxy's client path and the agent's handler chain is enumerated), that both hop-by-hop tables equal "
+      "the RFC 7230 set, that the backend-facing proxy is httputil.NewSingleHostReverseProxy of a Scheme+Host URL without "
+      "Director/Rewrite override, that the request object stored, serialised (Request.Write), parsed (private bufio.Reader) and "
+      "served is one chain of custody, and that no ServeMux/StripPrefix/TimeoutHandler sits on the pass-through route.")
+
+claim("C03", "ownership-transfer rule + taint (tokeniser as sanitiser) + partial evaluation of status comparisons + dominance",
+      "Byte identity through Response.Write/ReadResponse is not decided. Decides the repository-specific shapes the statement's "
+      "input classes depend on: Header/Trailer maps of the response handed to the serialiser goroutine are private (no aliasing "
+      "with the writer's fields, directly or through its accessor); declared-trailer names pass a comma tokeniser before being "
+      "used as keys; 1xx statuses never latch a ResponseWriter or get published, all final statuses (incl. 101) do — evaluated "
+      "for representative statuses of each class; every header/trailer copy is guarded by the hop-by-hop predicate on the same "
+      "key and by no other filter; chunked framing is forced before serialisation; wrappers forward their own status and slice.")
+
+claim("C04", "dominance / must-pass-through + confinement (escape) analysis + call-site uniqueness + channel typestate",
+      "Decides for every order and grouping of pending-list replies: the worker start is control-dependent on the miss of the "
+      "dedup lookup keyed by the very list element handed to the worker and every path through that branch records the key; the "
+      "LRU never leaves the polling goroutine; its window is a constant ≥ 1000; every call site on the chain worker → ReadRequest "
+      "→ callback → forwardRequest → ServeHTTP is unique and outside loops; the proxy has one send site for request IDs (not in a "
+      "loop, unbuffered channel) and every received ID is appended to the returned reply. Not decided: retries inside "
+      "ReverseProxy/Transport, LRU eviction order.")
+
+claim("C05", "deny-list over the static call closure of the response path + structural write-through / single-read rules",
+      "Liveness is not decided. Decides that no structural obstacle to streaming exists on the response path: no "
+      "accumulate-then-forward call (ReadAll, ReadFull, Buffer.ReadFrom, bufio writers, Copy into buffers) in the static call "
+      "closure of the path's entry points; every Write forwards its own slice with one underlying Write outside loops; every "
+      "upload-path Reader does one underlying Read per call outside loops; the serialiser does not wrap the body it writes; the "
+      "two io.Pipes are wired as designed; chunked framing is forced; FlushInterval is negative or ≤ 1 s; the HTML splice does one "
+      "bounded Read; the response is published from WriteHeader.")
+
+claim("C06", "counted-loop evaluation + must-pass-through + truth tables by partial evaluation + lockset + pairing rules",
+      "Decides for every fault sequence: at most three attempts (counted loop evaluated); every path from one client.Do to the "
+      "next passes a rewind whose failure leaves the function; Seek refuses exactly when the retained prefix may be incomplete "
+      "(writeHead vs len(buf), offset, whence evaluated on boundary values); the replay state is only touched under its mutex, "
+      "each attempt reads through the handle returned by its own rewind and a stale generation never reaches the source; both "
+      "forwarder goroutines close their pipe end and error channel on every exit, CloseWithError propagates failures, Close() "
+      "drains both channels. Not decided: attempt bytes for a given fault offset inside http.Transport.")
+
+claim("C07", "VTA call-graph reachability + lockset + shared-state inventory + channel typestate + nil-through-channel rule",
+      "Decides the ways this code base can kill or wedge the whole agent from per-request code: no process-terminating call in "
+      "module source is reachable (VTA, through stdlib callbacks) from the per-request worker; agent-side shared state is accessed "
+      "under its mutex (exclusive lock, RLock does not count for mutating accessors); every shared map / non-goroutine-safe object "
+      "is guarded, per-request or read-only after construction; the dedup LRU is confined to the poller; no unchecked type "
+      "assertion on per-request paths; possibly-nil messages are nil-checked across the shim channels; no close of a multi-sender "
+      "channel; published response maps are not aliased; default 502 error handler. Not decided: panics inside dependencies.")
+
+claim("C08", "interval abstract interpretation over SSA on a complete finite partition + loop-structure rule",
+      "The delay function touches its argument through one comparison and one shift, so the 64-bit argument range splits into "
+      "T+3 classes; an interval interpreter (exact integers with overflow detection, outward-rounded floats, rand ∈ [0,1]) "
+      "evaluates ExponentialBackoffDuration∘addJitter on every class and discharges: no overflow, result > 0, within ±j (j ≤ 0.1) "
+      "of the target, targets double from ≈1 ms to the ≈3 s cap. Structurally: every failure path of the polling loop sleeps for "
+      "the back-off of a counter that is +1 on failure and 0 on success, and every failure of the list call (non-200, transport "
+      "error) surfaces as an error. Not decided: that time.Sleep sleeps that long.", level="proof")
+
+claim("C09", "dominance under flag valuation (partial evaluation) + value provenance + helper inlining (one level)",
+      "Decides for every client-supplied header set: the identity header is written with replace semantics (Set, or canonical-key "
+      "map store, or Del+Add), its value is the user the proxy reported in its own reply header (App Engine side: the signed-in "
+      "user through role-checked parameters), under -forward-user-id / -strip-credentials every path to the handler-chain "
+      "invocation passes the write / the Authorization delete on the forwarded request itself (so shim dials are covered), nothing "
+      "after the invocation, and the shim dials with stripWSHeader(request header), which only copies keys.")
+
+claim("C10", "lockset + must-pass-through under status valuation + literal-field provenance + string-equality truth table",
+      "Decides for all requests, sessions and schedules: the session LRU is only touched under Cache.mu (exclusive); for every "
+      "final status each path to wrapped.WriteHeader first deletes Set-Cookie from the forwarded header, the only Set-Cookie added "
+      "is the session cookie literal on the no-session branch, Write cannot reach the wrapped writer before WriteHeader; 1xx does "
+      "not latch; cookie literal attributes (HttpOnly, Path=/, Secure=!override, Expires=now+lifetime, name, fresh UUID); the "
+      "session cookie is dropped and other client cookies kept (equality truth table), jars and cookie URL are the caller's own. "
+      "Not decided: cookiejar matching, LRU eviction, expiry arithmetic.")
+
+claim("C11", "sibling agreement by partial evaluation + channel inventory + provenance of message fields",
+      "Exactly-once/in-order over all histories is not decided. Decides the structural facts it rests on: encoder and decoder "
+      "agree (same base64 object, same version polarity, same type constants); messages move only through two FIFO channels with "
+      "one producer/consumer goroutine each; the data endpoint walks the decoded slice by index synchronously and aborts on the "
+      "first error; writer and reader move (Type, Data) of exactly one message / one ReadMessage result; polls return every "
+      "received message in receive order; injection parses the whole message, only adds missing keys, keeps the type and falls "
+      "back to the original on error.")
+
+claim("C12", "channel typestate + every-path-answers (must-pass-through) + status oracle + lifecycle pairing",
+      "Decides for every call order and interleaving: no channel with concurrent senders is closed and closes happen once; every "
+      "send reachable from an endpoint selects on the connection's done channel, receives have timer/default alternatives; every "
+      "CFG path of the five endpoint handlers produces an HTTP answer with constant status in {200,400,408,500}; an unknown "
+      "session leads only to 400, failed send/poll to 400, only close and a failed poll forget a session; reader/writer cancel the "
+      "connection context on every exit, a goroutine closes the backend socket after Done, Close() makes the writer exit. Not "
+      "decided: that gorilla's WriteMessage returns in bounded time on a dead peer.")
+
+claim("C13", "must-assign (definite overwrite) per URL field + who-may-dial table + mounting/dispatch dominance",
+      "Decides for every URL a client can submit: the dialled URL is String() of a copy of the request URL whose Scheme, Host, "
+      "Opaque and User are each overwritten, on every path before String(), by a constant or the configured host; the shim "
+      "package has one dial site whose URL is NewConnection's parameter, one NewConnection call site, no other network client, "
+      "and the handshake response is never used (no redirect following); endpoints are mounted under path.Join(shimPath, const) "
+      "and non-shim requests reach the wrapped handler with the original writer and request. Not decided: DNS/proxy environment.")
+
+claim("C14", "partial evaluation on predicate results + predicate truth tables + index/slice agreement",
+      "The splice arithmetic on run-time strings is not decided. Decides that every alteration is gated: the banner writer is "
+      "installed only when isHTMLRequest holds; for not-frameable responses WriteHeader mutates no header, writes no frame, forwards "
+      "the status and lets the body pass; framed requests get the original body; frameable ones get the frame and the uncacheable / "
+      "sameorigin headers; Write forwards iff writeBytes; 1xx does not latch; predicate truth tables (only GET, only 200, not "
+      "attachment, content-type constants); the shim touches nothing (not even the body) unless Content-Type contains html, the new "
+      "body is prefix+original, and the script is inserted by Replace(…, 1) or by index and slice on the same string.")
+
+for _pid in ["C15", "C16", "C17", "C18", "C19", "C20"]:
     pending(_pid, "check under construction in this round (designed in DESIGN.md section 3); not claimed until its rules are built and validated")
